@@ -726,8 +726,12 @@ func (p *processor) ProcessBlock(ctx context.Context, block sync.Block) error {
 					p.haltedReason = fmt.Sprintf("error adding leaf to the exit tree: %v", err)
 					p.mu.Unlock()
 					p.log.Errorf("processor halted: %s", p.haltedReason)
+					return sync.ErrInconsistentState
 				}
-				return sync.ErrInconsistentState
+				// any other failure (e.g. a storage error) says nothing about the consistency of the tree:
+				// report it as such, so that the driver retries this block instead of giving it up
+				p.log.Errorf("failed to add leaf to the exit tree at block %d: %v", block.Num, err)
+				return err
 			}
 			if err = meddler.Insert(tx, bridgeTableName, event.Bridge); err != nil {
 				p.log.Errorf("failed to insert bridge event at block %d: %v", block.Num, err)
